@@ -368,19 +368,33 @@ def _r1(ctx, rm, pkg):
         ci = pkg.cls(G)
         ctx.check("rateexpr" not in ci.methods, "R1", f"{G}:rateexpr not overridden", (ci.file, ci.node.lineno),
                   "the dispatch and the NotImplemented -> NotImplementedError conversion are inherited from Grain.rateexpr")
-    # the conversion itself
-    fn = g.methods["rateexpr"]
-    conv = None
-    for n in ast.walk(fn):
-        if isinstance(n, ast.If) and isinstance(n.test, ast.Compare) and isinstance(n.test.ops[0], (ast.Is, ast.Eq)) and \
-                ast.unparse(n.test.comparators[0]) == "NotImplemented" and isinstance(n.test.left, ast.Name) and \
-                any(isinstance(r, ast.Return) and isinstance(r.value, ast.Name) and r.value.id == n.test.left.id for r in ast.walk(fn)):     # the tested name is the one returned
-            if n.body and isinstance(n.body[0], ast.Raise) and "NotImplementedError" in ast.unparse(n.body[0]):
-                conv = n
-    rets = [n for n in ast.walk(fn) if isinstance(n, ast.Return)]
-    ctx.check(conv is not None and all(r.lineno > conv.lineno for r in rets), "R1", "Grain.rateexpr:NotImplemented->error", (g.file, fn.lineno),
+    # the conversion itself, read off the facts of Grain.rateexpr whatever the spelling (`if rate is NotImplemented: raise`, a
+    # guard clause `if rate is not NotImplemented: return rate` followed by the raise, the test in a helper): some raise of
+    # NotImplementedError sits under `X is NotImplemented`, and every value the method returns is that X on a path where the test failed
+    def _priv(name):
+        return pkg.resolve("Grain", name)[1] if name.startswith("_") and not name.startswith("__") else None
+    try:
+        fn = pkg.expanded("Grain", "rateexpr", keep=tuple(gm.values()))
+    except Exception:
+        fn = g.methods["rateexpr"]
+    rfl = Flow(fn, g.file, resolver=_priv)
+    NI = ("global", "NotImplemented")
+
+    def ni_test(gd):
+        """X of a guard `X is NotImplemented` / `X == NotImplemented` in positive form -> (X, polarity) or None"""
+        c, pol = norm_guard((simp(gd[0]), gd[1]))
+        if c[0] == "cmp" and c[1] in (("Is",), ("Eq",)) and len(c[2]) == 2 and NI in c[2]:
+            return (c[2][0] if c[2][1] == NI else c[2][1]), pol
+        return None
+    raised = {t[0] for f in rfl.facts if f.kind == "raise" and f.value is not None and "NotImplementedError" in show(f.value)
+              for gd in f.guards for sg in split_guard(gd) for t in [ni_test(sg)] if t is not None and t[1]}
+    rets = [f for f in rfl.facts if f.kind == "return" and f.value is not None]
+    conv_ok = bool(raised) and bool(rets) and all(
+        simp(f.value) in raised and any(t is not None and t[0] == simp(f.value) and not t[1] for gd in f.guards for sg in split_guard(gd) for t in [ni_test(sg)]) for f in rets)
+    ctx.check(conv_ok, "R1", "Grain.rateexpr:NotImplemented->error", (g.file, fn.lineno),
               "a NotImplemented result raises NotImplementedError before anything is returned",
-              expected="if rate is NotImplemented: raise NotImplementedError(..)")
+              expected="if rate is NotImplemented: raise NotImplementedError(..)",
+              found="; ".join(f"return {show(simp(f.value))[:40]} under {[show(c)[:40] + '=' + str(p_) for c, p_ in f.guards][-2:]}" for f in rets)[:300])
     n = 0
     for G in GRAIN_CLASSES:
         for tau, mname in sorted(gm.items(), key=lambda kv: str(kv[0])):
@@ -402,25 +416,57 @@ def _r1(ctx, rm, pkg):
             # overrides call super() first
             if dc != "Grain":
                 first = fn.body[0]
-                if isinstance(first, ast.Expr) and isinstance(first.value, ast.Constant):
+                if isinstance(first, ast.Expr) and isinstance(first.value, ast.Constant) and len(fn.body) > 1:
                     first = fn.body[1]
                 src = ast.unparse(first)
-                ctx.check(src == f"super().{mname}(reac)", "R1", f"{dc}.{mname}:super-first", (pkg.cls(dc).file, fn.lineno),
+                ctx.check(_is_base_call(pkg, dc, fn, mname, first), "R1", f"{dc}.{mname}:super-first", (pkg.cls(dc).file, fn.lineno),
                           "the override first runs the base method (type and arity validation)", expected=f"super().{mname}(reac)", found=src[:60])
     ctx.floor("R1", "(grain class, type) pairs", n, 45)
-    # base validation present
+    # base validation present: some raise of the base method sits on the path where reac.reaction_type differs from the type the
+    # dispatch sends here (read off the facts, private validation helpers put back)
+    RT = ("attr", REAC, "reaction_type")
     for tau, mname in gm.items():
         fn = g.methods.get(mname)
         if fn is None:
             continue
-        t = [x for x in ast.walk(fn) if isinstance(x, ast.If) and "reaction_type" in ast.unparse(x.test) and isinstance(x.body[0], ast.Raise)]
+        try:
+            fx = pkg.expanded("Grain", mname)
+        except Exception:
+            fx = fn
+        # the parameter may have any name: the reaction is the method's own (second) parameter
+        pname = fx.args.args[1].arg if len(fx.args.args) > 1 else "reac"
         ok = False
-        for x in t:
-            c = x.test
-            if isinstance(c, ast.Compare) and isinstance(c.ops[0], ast.NotEq):
-                val = rm._enum_expr("Grain", c.comparators[0])
-                ok = ok or val == tau
+        for f in Flow(fx, g.file, consts=rm.module_consts(g.file)).facts:
+            if f.kind != "raise":
+                continue
+            for gd in f.guards:
+                for sg in split_guard(gd):
+                    c, pol = norm_guard((simp(sg[0]), sg[1]))
+                    if c[0] == "cmp" and c[1] == ("Eq",) and len(c[2]) == 2 and not pol:
+                        a, b = c[2]
+                        for x, y in ((a, b), (b, a)):
+                            if x == ("attr", ("param", pname), "reaction_type") and rm.enum_of_ir("Grain", y) == tau:
+                                ok = True
         ctx.check(ok, "R1", f"Grain.{mname}:type-validation", (g.file, fn.lineno), f"the base method refuses reactions whose type is not {tau}")
+
+
+def _is_base_call(pkg, dc, fn, mname, st) -> bool:
+    """is statement `st` of override `dc.mname` the call of the base-class method with the override's own argument?
+    super().m(reac) / super(Cls, self).m(reac) / Base.m(self, reac)"""
+    if not (isinstance(st, ast.Expr) and isinstance(st.value, ast.Call) and isinstance(st.value.func, ast.Attribute) and st.value.func.attr == mname):
+        return False
+    call, recv = st.value, st.value.func.value
+    params = [a.arg for a in fn.args.args]
+    if len(params) < 2 or call.keywords:
+        return False
+    own = lambda args: len(args) == 1 and isinstance(args[0], ast.Name) and args[0].id == params[1]
+    if isinstance(recv, ast.Call) and isinstance(recv.func, ast.Name) and recv.func.id == "super" and not recv.keywords:
+        if recv.args and not (len(recv.args) == 2 and isinstance(recv.args[0], ast.Name) and recv.args[0].id == dc and isinstance(recv.args[1], ast.Name) and recv.args[1].id == params[0]):
+            return False
+        return own(call.args)
+    if isinstance(recv, ast.Name) and recv.id in pkg.mro(dc)[1:] and pkg.resolve(recv.id, mname)[1] is not None:
+        return len(call.args) == 2 and isinstance(call.args[0], ast.Name) and call.args[0].id == params[0] and own(call.args[1:])
+    return False
 
 
 def _r2_r5(ctx, rm, pkg):
@@ -656,6 +702,11 @@ MUTANTS = [
     {"name": "binding-energy-cached-inside-helper", "edits": [
         {"file": SPECIES, "old": _EB_CHAIN, "new": "        eb = self._lookup_eb()\n"},
         {"file": SPECIES, "old": "    @property\n    def binding_energy(self) -> float:\n", "new": "    def _lookup_eb(self):\n        if not self._binding_energy:\n            self._binding_energy = chemistrydata.user_binding_energy.get(self.name) or chemistrydata.rate12_binding_energy.get(self.gasname)\n        return self._binding_energy\n\n    @property\n    def binding_energy(self) -> float:\n"}], "rules": ["R3"]},
+    {"name": "notimplemented-guard-clause-inverted", "file": GR, "old": "        if rate is NotImplemented:\n            raise NotImplementedError(\n                f\"The reaction rate function is not implemented in {self.model}\"\n            )\n\n        return rate\n",
+     "new": "        if rate is NotImplemented:\n            return rate\n        raise NotImplementedError(f\"The reaction rate function is not implemented in {self.model}\")\n", "rules": ["R1"]},
+    {"name": "base-validation-helper-wrong-type", "edits": [
+        {"file": GR, "old": "        if reac.reaction_type != ReactionType.GRAIN_FREEZE:\n            raise ValueError(\"The reaction type is not depletion\")\n", "new": "        self._expect_type(reac, ReactionType.GRAIN_DESORB_THERMAL, \"depletion\")\n"},
+        {"file": GR, "old": "    def rate_depletion(self, reac: Reaction) -> str:\n", "new": "    def _expect_type(self, reaction, wanted, what):\n        if reaction.reaction_type != wanted:\n            raise ValueError(f\"The reaction type is not {what}\")\n\n    def rate_depletion(self, reac: Reaction) -> str:\n", "count": 1}], "rules": ["R1"]},
 ]
 BENIGN = [
     {"name": "binding-energy-guard-clauses", "file": SPECIES, "old": _EB_CHAIN,
@@ -677,6 +728,12 @@ BENIGN = [
         {"file": GR, "old": "        elif rtype == ReactionType.GRAIN_DESORB_REACTIVE:\n            rate = self.rate_reactive_desorption(reac)\n\n        elif rtype == ReactionType.GRAIN_ECAPTURE:\n            rate = self.rate_electron_capture(reac)\n\n        else:\n            raise ValueError(\n                f\"Unknown reaction type in {self.model} dust model: {rtype}\"\n            )\n",
          "new": "        else:\n            for known_type, builder_name in self._late_builders:\n                if rtype == known_type:\n                    rate = getattr(self, builder_name)(reac)\n                    break\n            else:\n                raise ValueError(\n                    f\"Unknown reaction type in {self.model} dust model: {rtype}\"\n                )\n"},
         {"file": GR, "old": "    def rateexpr(self, reac: Reaction) -> str:\n", "new": "    _late_builders = (\n        (ReactionType.GRAIN_DESORB_REACTIVE, \"rate_reactive_desorption\"),\n        (ReactionType.GRAIN_ECAPTURE, \"rate_electron_capture\"),\n    )\n\n    def rateexpr(self, reac: Reaction) -> str:\n"}]},
+    {"name": "notimplemented-guard-clause", "file": GR, "old": "        if rate is NotImplemented:\n            raise NotImplementedError(\n                f\"The reaction rate function is not implemented in {self.model}\"\n            )\n\n        return rate\n",
+     "new": "        if rate is not NotImplemented:\n            return rate\n        raise NotImplementedError(f\"The reaction rate function is not implemented in {self.model}\")\n"},
+    {"name": "base-validation-in-helper", "edits": [
+        {"file": GR, "old": "        if reac.reaction_type != ReactionType.GRAIN_FREEZE:\n            raise ValueError(\"The reaction type is not depletion\")\n", "new": "        self._expect_type(reac, ReactionType.GRAIN_FREEZE, \"depletion\")\n"},
+        {"file": GR, "old": "    def rate_depletion(self, reac: Reaction) -> str:\n", "new": "    def _expect_type(self, reaction, wanted, what):\n        if reaction.reaction_type != wanted:\n            raise ValueError(f\"The reaction type is not {what}\")\n\n    def rate_depletion(self, reac: Reaction) -> str:\n", "count": 1}]},
+    {"name": "super-call-explicit-base", "file": RR, "old": "    def rate_h2_desorption(self, reac: Reaction) -> str:\n        super().rate_h2_desorption(reac)\n", "new": "    def rate_h2_desorption(self, reac: Reaction) -> str:\n        Grain.rate_h2_desorption(self, reac)\n"},
 ]
 
 
